@@ -48,6 +48,10 @@ pub enum RChan {
     PublishNowait,
     SyncCall,
     ListenReturns,
+    /// Channel::close - on A it crosses the server's Channel.Close(A); a server that follows
+    /// the close-collision rule (RabbitMQ does) then answers the client's Close with CloseOk
+    /// although the channel is already gone on the client
+    CloseChannel,
 }
 
 #[derive(Clone, Debug, Serialize, Deserialize, PartialEq)]
@@ -79,6 +83,7 @@ struct RunResult {
     panics: Vec<String>,
     achieved: bool,
     hung: bool,
+    collision_answered: bool,
 }
 
 fn show<T>(r: &Result<T, Error>) -> String {
@@ -88,12 +93,14 @@ fn show<T>(r: &Result<T, Error>) -> String {
     }
 }
 
-fn chan_request(ch: &Channel, k: RChan) -> String {
-    match k {
+fn chan_request(ch: Channel, k: RChan) -> (Option<Channel>, String) {
+    let out = match k {
         RChan::PublishNowait => show(&ch.basic_publish("", Publish::new(b"racing", "rk"))),
         RChan::SyncCall => show(&ch.qos(0, 7, false)),
         RChan::ListenReturns => show(&ch.listen_for_returns().map(|_| ())),
-    }
+        RChan::CloseChannel => return (None, show(&ch.close())),
+    };
+    (Some(ch), out)
 }
 
 const STREAM: usize = 65536;
@@ -109,6 +116,7 @@ fn run(c: &Case, mode: Mode, only: Option<Kind>) -> RunResult {
         panics: Vec::new(),
         achieved: false,
         hung: false,
+        collision_answered: false,
     };
     let mut sess = open_session(&ClientCfg::default(), ServerCfg::default(), vec![], AutoBroker::new(5));
     let mut conn = match sess.conn.take() {
@@ -172,7 +180,7 @@ fn run(c: &Case, mode: Mode, only: Option<Kind>) -> RunResult {
     // request threads report (kind, outcome, returned handles)
     enum Back {
         Conn(Option<Connection>, String),
-        Chan(Kind, Channel, String),
+        Chan(Kind, Option<Channel>, String),
     }
     let (tx, rx) = mpsc::channel::<Back>();
     let mut conn_opt = Some(conn);
@@ -222,7 +230,7 @@ fn run(c: &Case, mode: Mode, only: Option<Kind>) -> RunResult {
                 if let Some(ch) = a_opt.take() {
                     *pending_threads += 1;
                     std::thread::spawn(move || {
-                        let out = chan_request(&ch, ra);
+                        let (ch, out) = chan_request(ch, ra);
                         let _ = tx.send(Back::Chan(Kind::RA, ch, out));
                     });
                 }
@@ -231,7 +239,7 @@ fn run(c: &Case, mode: Mode, only: Option<Kind>) -> RunResult {
                 if let Some(ch) = b_opt.take() {
                     *pending_threads += 1;
                     std::thread::spawn(move || {
-                        let out = chan_request(&ch, rb);
+                        let (ch, out) = chan_request(ch, rb);
                         let _ = tx.send(Back::Chan(Kind::RB, ch, out));
                     });
                 }
@@ -248,9 +256,9 @@ fn run(c: &Case, mode: Mode, only: Option<Kind>) -> RunResult {
                 }
                 Ok(Back::Chan(k, ch, out)) => {
                     if k == Kind::RA {
-                        *a_opt = Some(ch);
+                        *a_opt = ch;
                     } else {
-                        *b_opt = Some(ch);
+                        *b_opt = ch;
                     }
                     res.outcomes.push((k, out));
                 }
@@ -280,7 +288,13 @@ fn run(c: &Case, mode: Mode, only: Option<Kind>) -> RunResult {
                 spawn_req(*k, &mut conn_opt, &mut a_opt, &mut b_opt, &mut pending_threads);
                 collect(&mut pending_threads, &mut res, &mut conn_opt, &mut a_opt, &mut b_opt);
             }
+            // a channel the client has closed (and the server has confirmed closed) is not
+            // there for the server to close any more
+            let a_closed_by_client = c.ra == RChan::CloseChannel && c.order.iter().any(|k| *k == Kind::RA && wanted(k));
             for k in &c.order {
+                if *k == Kind::SCh && a_closed_by_client {
+                    continue;
+                }
                 let bytes = close_frames(*k);
                 if !bytes.is_empty() {
                     announce(*k);
@@ -351,6 +365,17 @@ fn run(c: &Case, mode: Mode, only: Option<Kind>) -> RunResult {
             }
             wire.release_gate();
             collect(&mut pending_threads, &mut res, &mut conn_opt, &mut a_opt, &mut b_opt);
+            // close collision: the client's Channel.Close(A) went out although the server was
+            // closing A itself; the server answers it with CloseOk (AMQP 0-9-1, channel.close:
+            // "a peer that detects a close collision should answer with close-ok")
+            if has(Kind::SCh) && has(Kind::RA) && c.ra == RChan::CloseChannel {
+                let d = crate::codec::decode_stream(&wire.out_snapshot());
+                let client_closed_a = d.frames.iter().any(|(_, f)| matches!(f, AMQPFrame::Method(1, AMQPClass::Channel(Chan::Close(_)))));
+                if client_closed_a {
+                    wire.push(encode(&AMQPFrame::Method(1, AMQPClass::Channel(Chan::CloseOk(channel::CloseOk {})))));
+                    res.collision_answered = true;
+                }
+            }
             // which batch did the I/O thread really see?
             if let Some(t) = wire.io_thread() {
                 let batches = amiquip::verif::batch_trace_take(t);
@@ -503,6 +528,9 @@ pub fn exec(c0: &Case) -> Outcome {
         }
     }
     let mut o = Outcome::pass(batched.achieved && c.order.len() >= 2);
+    if batched.collision_answered {
+        o.labels.push("close-collision-answered-with-close-ok".into());
+    }
     if batched.achieved {
         o.labels.push("intended-batch-order-achieved".into());
     } else {
@@ -538,7 +566,7 @@ fn all_shapes() -> Vec<Vec<Kind>> {
 fn enumerate(t: Tier) -> Vec<Case> {
     let shapes = all_shapes();
     let r0s = [R0Kind::OpenAuto, R0Kind::OpenExplicit, R0Kind::ListenBlocked, R0Kind::Close];
-    let rcs = [RChan::PublishNowait, RChan::SyncCall, RChan::ListenReturns];
+    let rcs = [RChan::PublishNowait, RChan::SyncCall, RChan::ListenReturns, RChan::CloseChannel];
     let reps = t.pick(2, 12);
     let mut v = Vec::new();
     let mut n = 0usize;
@@ -548,8 +576,8 @@ fn enumerate(t: Tier) -> Vec<Case> {
             v.push(Case {
                 order: s.clone(),
                 r0: r0s[(n + r) % 4],
-                ra: rcs[(n / 4 + r) % 3],
-                rb: rcs[(n / 12 + 2 * r) % 3],
+                ra: rcs[(n / 4 + r) % 4],
+                rb: rcs[(n / 16 + 3 * r) % 4],
                 code: 320 + (n % 7) as u16,
                 text: format!("closing-{}", n % 5),
             });
@@ -563,8 +591,8 @@ fn strat(_t: Tier) -> BoxedStrategy<Case> {
     (
         prop::sample::select(shapes),
         prop_oneof![Just(R0Kind::OpenAuto), Just(R0Kind::OpenExplicit), Just(R0Kind::ListenBlocked), Just(R0Kind::Close)],
-        prop_oneof![Just(RChan::PublishNowait), Just(RChan::SyncCall), Just(RChan::ListenReturns)],
-        prop_oneof![Just(RChan::PublishNowait), Just(RChan::SyncCall), Just(RChan::ListenReturns)],
+        prop_oneof![Just(RChan::PublishNowait), Just(RChan::SyncCall), Just(RChan::ListenReturns), Just(RChan::CloseChannel)],
+        prop_oneof![Just(RChan::PublishNowait), Just(RChan::SyncCall), Just(RChan::ListenReturns), Just(RChan::CloseChannel)],
         any::<u16>(),
         "[a-zA-Z ]{0,12}",
     )
@@ -575,7 +603,7 @@ fn strat(_t: Tier) -> BoxedStrategy<Case> {
 pub fn parts() -> Vec<Box<dyn PartDyn>> {
     vec![Box::new(Part::<Case> {
         name: "batch",
-        rule: "every ordered subset (size 1-4, containing at least one server close) of {server Connection.Close, server Channel.Close(A), channel-0 request, request on A, request on B} is enumerated, with request variants (open_channel auto/explicit, listen_for_connection_blocked, Connection::close; nowait publish, synchronous call, listener registration) rotated / generated; the I/O thread is parked inside the transport's write while the events are made pending in that order, so they arrive in one poll batch; oracle: no I/O-thread panic, Connection::close reports the server's close, and every racing request's return value equals its value in one of two serial reference executions on the same build (request before the close is visible / after it was processed); non-trivial = the cfg(amiquip_verif) batch trace shows the intended tokens in the intended order in one batch (>= 2 events); distinct by case hash",
+        rule: "every ordered subset (size 1-4, containing at least one server close) of {server Connection.Close, server Channel.Close(A), channel-0 request, request on A, request on B} is enumerated, with request variants (open_channel auto/explicit, listen_for_connection_blocked, Connection::close; nowait publish, synchronous call, listener registration, Channel::close - whose Close, when it crosses the server's, is answered with CloseOk as the close-collision rule demands) rotated / generated; the I/O thread is parked inside the transport's write while the events are made pending in that order, so they arrive in one poll batch; oracle: no I/O-thread panic, Connection::close reports the server's close, and every racing request's return value equals its value in one of two serial reference executions on the same build (request before the close is visible / after it was processed); non-trivial = the cfg(amiquip_verif) batch trace shows the intended tokens in the intended order in one batch (>= 2 events); distinct by case hash",
         cases: |t| t.pick(400, 6000),
         threads: 8,
         strategy: strat,
